@@ -67,6 +67,10 @@ func (ta *authenticator) Init(jsonconf json.RawMessage, name string) error {
 	if config.ExpireIn <= 0 {
 		return errors.New("auth_token: invalid expiration value")
 	}
+	if config.SerialNum < 0 || config.SerialNum > 0xFFFF {
+		// The token carries the serial number as a 16-bit field.
+		return errors.New("auth_token: serial number is out of range")
+	}
 
 	ta.name = name
 	ta.hmacSalt = config.Key
